@@ -256,7 +256,7 @@ def r4_inventory(repo):
                           "%s.%s must read %s of the node; missing: %s" % (lang, vname, sorted(need), missing),
                           {"reads": sorted(x for x in reads if x)}))
             # boolean modifiers are independent attributes of the IR: each must be consulted on its own, i.e. at
-            # least one of its reads is not control-dependent on another modifier of the same node (otherwise the text
+            # least one of its reads is not control-dependent on another attribute of the same node (otherwise the text
             # does not depend on it on the other branch and two different declarations print alike)
             for a in sorted(need & BOOL_MODIFIERS):
                 rs = [n for n in ast.walk(m.node) if isinstance(n, ast.Attribute) and isinstance(n.value, ast.Name)
@@ -267,11 +267,11 @@ def r4_inventory(repo):
                 for n in rs:
                     dep = [src(t) for t, _pol in flat_guards(n) if not any(x is n for x in ast.walk(t)) and any(
                         isinstance(x, ast.Attribute) and isinstance(x.value, ast.Name) and x.value.id == p and
-                        x.attr in BOOL_MODIFIERS and x.attr != a for x in ast.walk(t))]
+                        x.attr != a for x in ast.walk(t))]
                     if not dep:
                         free.append(n)
                 obs.append(Ob("C12-R4", "%s:%s:%s-consulted-independently" % (lang, vname, a), _w(m, rs[0]), bool(free),
-                              "every read of %s.%s in %s.%s happens only under a test of another modifier of the node; on "
+                              "every read of %s.%s in %s.%s happens only under a test of another attribute of the node; on "
                               "the other branch the emitted text does not depend on it" % (p, a, lang, vname)))
     return obs
 
